@@ -84,3 +84,13 @@ Example C01_nonvacuous : exists ops,
   match root (st_of KAlpha ops) with Some (Inner n) => 16 <= nkind n | _ => False end /\
   outs KAlpha ops = snd (ideal_run KAlpha [] ops).
 Proof. exact nonvacuous. Qed.
+
+(* the known finding D14: collation strings the collator cannot tell apart (byte-identical sort keys) are
+   outside history_ok, and the model — like the code — loses both keys there *)
+From GoArt Require Import Proofs.FindingFacts.
+Theorem C01_collation_equal_sortkeys_refuted :
+  history_ok KCollation d14_ops = false /\
+  ~ map_outputs_ok KCollation [] d14_ops (outs KCollation d14_ops) /\
+  outs KCollation d14_ops = [OUnit; OUnit; OAbsent; OAbsent; OSize 2; OSeq [] 0].
+Proof. exact collation_equal_sortkeys_refuted. Qed.
+Print Assumptions C01_collation_equal_sortkeys_refuted.
